@@ -114,3 +114,30 @@ PROPS["C18"] = dict(
     e1=[],
     e2=["c18"],
 )
+
+HL3 = {"refcbor": 260, "common": 260, "c03::": 260, "memcmp": 260}
+_c03 = [("tx_input", "hash: all bytes; index: all u32", ["TransactionInput::to_bytes"]),
+        ("value_ada", "coin: all u64; empty bundle == absent", ["Value::to_bytes"]),
+        ("value_1x2", "1 policy x 2 names (lengths 1,2; both insertion orders); coin and amounts all u64", ["Value::to_bytes", "MultiAsset/Assets serialize", "AssetName::cmp"]),
+        ("value_2x1", "2 policies with symbolic first byte, both orders; amounts all u64", ["Value::to_bytes", "MultiAsset serialize"]),
+        ("output_legacy", "enterprise address, coin all u64 (also the C07 size lemma)", ["TransactionOutput::to_bytes"]),
+        ("output_legacy_datahash", "enterprise address + data hash, coin all u64", ["TransactionOutput::to_bytes"]),
+        ("output_inline_datum", "post-Alonzo map with 3-byte bytes datum", ["TransactionOutput::to_bytes", "DataOption serialize"]),
+        ("output_script_ref_and_datahash", "post-Alonzo map with data hash and native-script reference", ["TransactionOutput::to_bytes", "ScriptRef serialize"]),
+        ("small_structs", "UnitInterval, ExUnits, ExUnitPrices, ProtocolVersion: all field values", ["UnitInterval/ExUnits/ExUnitPrices/ProtocolVersion::to_bytes"]),
+        ("cert_stake_reg_dereg", "certificate indices 0,1,7,8; both credential kinds; coin all u64", ["Certificate::to_bytes"]),
+        ("cert_delegations", "certificate indices 2,4,11", ["Certificate::to_bytes"]),
+        ("cert_votes", "certificate indices 9,10,12,13 x 4 DRep kinds", ["Certificate::to_bytes", "DRep serialize"]),
+        ("cert_governance", "certificate indices 14-18 (anchor absent)", ["Certificate::to_bytes"]),
+        ("withdrawals_and_mint", "2 withdrawals; mint of one asset with amount over -(2^64-1)..2^64-1", ["Withdrawals::to_bytes", "Mint::to_bytes"]),
+        ("redeemer_enc", "6 tags; index, memory, steps all u64", ["Redeemer::to_bytes"]),
+        ("size_bounds", "constructor input length 0..34", ["AssetName::new", "Ipv4::new", "Ipv6::new"])]
+PROPS["C03"] = dict(
+    bounds="fixed shape list (one harness per shape), every scalar leaf over its full range, hash bytes symbolic; collections of at most two elements",
+    assumptions=["the reference encoder (kani/src/refcbor.rs) is written from RFC 8949 and the Conway CDDL and shares no code with CSL or cbor_event",
+                 "types outside the shape list (transaction body, protocol parameter updates, governance actions, metadata, Plutus data trees, blocks) and builder outputs as a whole are outside the bound"],
+    e1=[J("c03_" + n, bound=b, encodes=e, unwind_fn=HL3, mem_gb=10, timeout_s=1200, tier=("quick" if n in ("tx_input", "value_ada", "value_1x2", "output_legacy", "output_inline_datum", "small_structs", "cert_stake_reg_dereg", "cert_votes", "withdrawals_and_mint", "size_bounds") else "thorough")) for n, b, e in _c03],
+)
+
+PROPS["C14"]["e2"] = ["c14"]
+PROPS["C14"]["bounds"] += "; BigInt narrowing (as_u64, as_int): every mathematical integer"
